@@ -103,6 +103,7 @@ fn main() {
             let total: usize = args[5].parse().unwrap();
             let dense = args.get(6).map_or(false, |s| s == "dense");
             let b = if dense { controller::dense_base(base) } else { base };
+            let batch = if dense { controller::DENSE_BATCH } else { batch };
             for mut j in controller::batch_jobs_x(b, k, batch, total, dense) {
                 j.log = true;
                 println!("{}", serde_json::to_string(&j).unwrap());
@@ -110,6 +111,7 @@ fn main() {
         }
         "clocktest" => {
             println!("clock seam works: {}", clock::selftest());
+            println!("timed waits on simulated threads keep their real length: {}", clock::selftest_timed_wait());
             // environment seam: inside a (pretend) call on a simulated thread the plan answers
             clock::set_sim_thread(true);
             envseam::set_plan(12345);
